@@ -6,7 +6,7 @@ Judge for C20 (math.go, util.go).  Type ids: i8 i16 i32 i64 u8 u16 u32 u64.  Val
 integers; the model computes on `BitVec w` (`BitVec.ofInt`), the specification on the mathematical integers.
   digits10 <ty> <v> | digitssign10 <ty> <v> => <int>        abs <ty> <v> => <v>
   min <ty> <list> | max <ty> <list> => <v> | panic:custom   clamp <ty> <v> <lo> <hi> => <v>    clamp01 <ty> <v> => <v>
-  sum <ty> <list> | product <ty> <list> => <v>              compare <ty> <a> <b> => <int>      less <ty> <a> <b> => <bool>
+  sum <ty> <list> | product <ty> <list> => <v>  (ty = f64: operands/result are IEEE-754 bit patterns as int64, NaN = nan)              compare <ty> <a> <b> => <int>      less <ty> <a> <b> => <bool>
   coal <list> => <v>      iszero <v> => <bool>      tern <0/1> <a> <b> => <v>
 The specification is silent (`none`) where the property is: Abs of a signed minimum, Clamp with lo > hi, Min/Max of
 nothing, and arguments outside the value range of the type.
@@ -32,6 +32,11 @@ def boundaryTag (sg : Bool) (w : Nat) (i : Int) : String :=
   else if i < 0 then "val.neg" else "val.pos"
 
 def bad : Out := { model := "bad-op" }
+
+/-- left fold of a float64 operation over operands given as bit patterns; the result as a (signed) bit pattern, NaN as `nan` -/
+def floatFold (f : Float → Float → Float) (init : Float) (bits : List Int) : String :=
+  let r := bits.foldl (fun acc b => f acc (Float.ofBits (UInt64.ofInt b))) init
+  if r.isNaN then "nan" else toString (Int64.ofNat r.toBits.toNat).toInt
 
 def specIf (c : Bool) (s : String) : Option String := if c then some s else none
 
@@ -104,6 +109,15 @@ def step (_ : Unit) (toks : List Val) (_impl : String) : Unit × Out :=
       ((), { model := toString (Model.Math.toInt sg r),
              spec := specIf (inRange sg w i) (toString (Spec.Math.clamp01 i)),
              tags := ["clamp01." ++ ty, if i < 0 then "clamp01.below" else if 1 < i then "clamp01.above" else "clamp01.inside"] })
+  | [.w "sum", .w "f64", l] =>
+    -- float64: operands and result are IEEE-754 bit patterns; the reference definition is the left-to-right fold of `+` from 0
+    match l.ints? with
+    | some is => let r := floatFold (· + ·) 0.0 is; ((), { model := r, spec := some r, tags := ["sum.f64", if is.length ≥ 4 then "sum.f64.long" else "sum.f64.short"] })
+    | none => ((), bad)
+  | [.w "product", .w "f64", l] =>
+    match l.ints? with
+    | some is => let r := floatFold (· * ·) 1.0 is; ((), { model := r, spec := some r, tags := ["product.f64"] })
+    | none => ((), bad)
   | [.w "sum", .w ty, l] =>
     match parseTy ty, l.ints? with
     | some (sg, w), some is =>
